@@ -33,6 +33,8 @@ ASSUMPTIONS = [
     'estimators drawing from the global NumPy RNG (OLEQ.estimate / OLEQ() / ROLEQ() with q0=None, q_random, rot_seq(angles=None)) get np.random.seed(s) before each call; Sensors / random_angpos '
     'get ahrs.utils.sensors.GENERATOR rebound to default_rng(s) before each call; every history starts from a fixed seed so that an undeclared RNG use shows up as non-repeatability, deterministically',
     'random_attitudes, Quaternion(random=True), Quaternion.random(), QuaternionArray(<int>) use an unseeded default_rng() by documentation: only their arguments are judged, not their results',
+    'containers: the same values as C-contiguous float64 ndarray, nested Python list, non-contiguous view of a wider buffer (quick) plus Fortran order, negative stride and float32 (thorough); '
+    'thorough also repeats everything with the non-normalised magnitudes scaled by 1e-3 and 1e3 and for all 8 menu entries',
     'an exception is a refusal, not a violation; but the three calls must agree (same exception type and message, or same result), and the arguments must be unchanged after a refusal too',
     'profiles "scalar-as-ndarray" hand 0-d / 1-element float64 arrays to parameters documented as float (frames, gravity formulas, WMM, geodetic2spherical); the library accepts them and computes '
     'vectorised results, so the statement (no array passed by the caller is changed) applies; these sites are separate so they can be triaged apart',
@@ -1353,13 +1355,12 @@ def _invoke(call, Aobj):
 
 def history(ctx, L, cid, entry, case, cont, k, scale=1.0):
     """call, call, call on the same argument objects; returns True when the first call completed."""
-    Aobj = case['make']()
+    Aobj = case['make']()                                    # a builder that cannot build is a harness error (job crash), never a verdict
     keep = set(case.get('keep', ()))
-    if cont != 'nd' or True:
-        for name in list(Aobj):
-            v = Aobj[name]
-            if type(v) is np.ndarray and v.ndim >= 1 and name not in keep:
-                Aobj[name] = contain(v, cont)
+    for name in list(Aobj):
+        v = Aobj[name]
+        if type(v) is np.ndarray and v.ndim >= 1 and name not in keep:
+            Aobj[name] = contain(v, cont)
     exempt = set(case.get('exempt', ()))
     judged = [n for n in Aobj if _has_array(Aobj[n]) and n not in exempt]
     before = {n: freeze(Aobj[n]) for n in judged}
